@@ -8,7 +8,9 @@
      C text                    engine-side configuration (do_event EConfig)
      X                         a step (do_event EStep)
      W                         table_wf and state_wf
-     K name                    entry_class / is_pseudo / the witness command line of a table entry *)
+     K name                    entry_class / is_pseudo / the witness command line of a table entry
+     G id:x:y:z id:x:y:z|...   groups ('|' between groups) of (atom id, contribution as three hex floats) in listing order:
+                               prints "ids i1 i2 .. | x y z x y z .." = build_ids and collect_groups (float addition, listing order) *)
 open Model
 
 let rec coq_string_of (s : Stdlib.String.t) (i : int) : Model.string =
@@ -30,6 +32,9 @@ let rec ocaml_string_of (s : Model.string) : Stdlib.String.t =
 
 let rec pos_of_int n = if n <= 1 then XH else if n land 1 = 0 then XO (pos_of_int (n lsr 1)) else XI (pos_of_int (n lsr 1))
 let z_of_int n = if n = 0 then Z0 else if n > 0 then Zpos (pos_of_int n) else Zneg (pos_of_int (- n))
+
+let rec int_of_pos p = match p with XH -> 1 | XO q -> 2 * int_of_pos q | XI q -> 2 * int_of_pos q + 1
+let int_of_z z = match z with Z0 -> 0 | Zpos p -> int_of_pos p | Zneg p -> - (int_of_pos p)
 
 let split_us s = Stdlib.String.split_on_char '\x1f' s
 let words_of rest = if rest = "\x00" then [] else List.map cs (split_us rest)
@@ -109,6 +114,17 @@ let () =
               let w = witness_words k sub (cs "\x01NAME") e in
               Printf.printf "class %s %s pseudo=%b witness=%s\n" kind (ocaml_string_of sub) (is_pseudo e)
                 (Stdlib.String.concat "\x1f" (List.map ocaml_string_of w))))
+      | 'G' ->
+        let parse_entry e = match Stdlib.String.split_on_char ':' e with
+          | [i; x; y; z] -> (z_of_int (int_of_string i), (float_of_string x, float_of_string y, float_of_string z))
+          | _ -> failwith ("bad entry " ^ e) in
+        let grps = List.map (fun g -> List.map parse_entry (List.filter (fun w -> w <> "") (Stdlib.String.split_on_char ' ' g)))
+            (Stdlib.String.split_on_char '|' rest) in
+        let ids = build_ids (List.map (List.map fst) grps) in
+        let add (a, b, c) (d, e, f) = (a +. d, b +. e, c +. f) in
+        let res = collect_groups add ids (List.map (fun _ -> (0., 0., 0.)) ids) grps in
+        Printf.printf "ids %s | %s increasing=%b\n" (Stdlib.String.concat " " (List.map (fun i -> string_of_int (int_of_z i)) ids))
+          (Stdlib.String.concat " " (List.map (fun (x, y, z) -> Printf.sprintf "%h %h %h" x y z) res)) (increasing ids)
       | _ -> print_endline "?"
     done
   with End_of_file -> ()
